@@ -17,7 +17,8 @@ type RMToken struct {
 // write back. It implements the creating, confirming, recovering, remembering and OAuth2
 // storer interfaces.
 type Store struct {
-	Users  []*User // nil entries are free slots
+	Users  []Record // nil entries are free slots
+	Plain  bool     // New() and NewFromOAuth2 create PlainUser records
 	Tokens []RMToken
 
 	// Fault, if set, is consulted at the start of every call; returning true makes the call
@@ -61,19 +62,37 @@ func (s *Store) fault(site string) bool {
 
 func (s *Store) find(pid string) int {
 	for i, u := range s.Users {
-		if u != nil && u.PID == pid {
+		if u != nil && u.B().PID == pid {
 			return i
 		}
 	}
 	return -1
 }
 
-// Get returns the stored record (not a copy) for harness inspection; nil if absent.
-func (s *Store) Get(pid string) *User {
+// Get returns the stored fields (not a copy) for harness inspection; nil if absent.
+func (s *Store) Get(pid string) *UserBase {
+	if i := s.find(pid); i >= 0 {
+		return s.Users[i].B()
+	}
+	return nil
+}
+
+// GetRec returns the stored record itself; nil if absent.
+func (s *Store) GetRec(pid string) Record {
 	if i := s.find(pid); i >= 0 {
 		return s.Users[i]
 	}
 	return nil
+}
+
+func (s *Store) put(r Record) {
+	for i, x := range s.Users {
+		if x == nil {
+			s.Users[i] = r
+			return
+		}
+	}
+	s.Users = append(s.Users, r)
 }
 
 func (s *Store) Load(ctx context.Context, key string) (authboss.User, error) {
@@ -84,41 +103,39 @@ func (s *Store) Load(ctx context.Context, key string) (authboss.User, error) {
 	if i < 0 {
 		return nil, authboss.ErrUserNotFound
 	}
-	return s.Users[i].Clone(), nil
+	return s.Users[i].CloneR().(authboss.User), nil
 }
 
 func (s *Store) Save(ctx context.Context, user authboss.User) error {
 	if s.fault("Save") {
 		return ErrInjected
 	}
-	u := user.(*User)
-	i := s.find(u.PID)
+	u := user.(Record)
+	i := s.find(u.B().PID)
 	if i < 0 {
 		return authboss.ErrUserNotFound
 	}
-	s.Users[i] = u.Clone()
+	s.Users[i] = u.CloneR()
 	s.Saves++
 	return nil
 }
 
-func (s *Store) New(ctx context.Context) authboss.User { return &User{} }
+func (s *Store) New(ctx context.Context) authboss.User {
+	if s.Plain {
+		return &PlainUser{}
+	}
+	return &User{}
+}
 
 func (s *Store) Create(ctx context.Context, user authboss.User) error {
 	if s.fault("Create") {
 		return ErrInjected
 	}
-	u := user.(*User)
-	if s.find(u.PID) >= 0 {
+	u := user.(Record)
+	if s.find(u.B().PID) >= 0 {
 		return authboss.ErrUserFound
 	}
-	for i, x := range s.Users {
-		if x == nil {
-			s.Users[i] = u.Clone()
-			s.Saves++
-			return nil
-		}
-	}
-	s.Users = append(s.Users, u.Clone())
+	s.put(u.CloneR())
 	s.Saves++
 	return nil
 }
@@ -128,8 +145,8 @@ func (s *Store) LoadByConfirmSelector(ctx context.Context, selector string) (aut
 		return nil, ErrInjected
 	}
 	for _, u := range s.Users {
-		if u != nil && u.ConfirmSelector == selector {
-			return u.Clone(), nil
+		if u != nil && u.B().ConfirmSelector == selector {
+			return u.CloneR().(authboss.ConfirmableUser), nil
 		}
 	}
 	return nil, authboss.ErrUserNotFound
@@ -140,8 +157,8 @@ func (s *Store) LoadByRecoverSelector(ctx context.Context, selector string) (aut
 		return nil, ErrInjected
 	}
 	for _, u := range s.Users {
-		if u != nil && u.RecoverSelector == selector {
-			return u.Clone(), nil
+		if u != nil && u.B().RecoverSelector == selector {
+			return u.CloneR().(authboss.RecoverableUser), nil
 		}
 	}
 	return nil, authboss.ErrUserNotFound
@@ -190,29 +207,26 @@ func (s *Store) NewFromOAuth2(ctx context.Context, provider string, details map[
 	uid := details["uid"]
 	pid := authboss.MakeOAuth2PID(provider, uid)
 	if i := s.find(pid); i >= 0 {
-		return s.Users[i].Clone(), nil
+		return s.Users[i].CloneR().(authboss.OAuth2User), nil
 	}
-	return &User{PID: pid, Email: details["email"], OAuth2UID: uid, OAuth2Provider: provider, Confirmed: true}, nil
+	b := UserBase{PID: pid, Email: details["email"], OAuth2UID: uid, OAuth2Provider: provider, Confirmed: true}
+	if s.Plain {
+		return &PlainUser{UserBase: b}, nil
+	}
+	return &User{UserBase: b}, nil
 }
 
 func (s *Store) SaveOAuth2(ctx context.Context, user authboss.OAuth2User) error {
 	if s.fault("SaveOAuth2") {
 		return ErrInjected
 	}
-	u := user.(*User)
-	if i := s.find(u.PID); i >= 0 {
-		s.Users[i] = u.Clone()
+	u := user.(Record)
+	if i := s.find(u.B().PID); i >= 0 {
+		s.Users[i] = u.CloneR()
 		s.Saves++
 		return nil
 	}
-	for i, x := range s.Users {
-		if x == nil {
-			s.Users[i] = u.Clone()
-			s.Saves++
-			return nil
-		}
-	}
-	s.Users = append(s.Users, u.Clone())
+	s.put(u.CloneR())
 	s.Saves++
 	return nil
 }
